@@ -69,7 +69,12 @@ func (g *gen) randValueType() Ty { return valueTypes[g.pick(len(valueTypes))] }
 
 // stmt emits one statement (possibly compound). tail: may this statement end the function with returns.
 func (g *gen) stmt(s *scope, fs *fstate, ind int, depth int) {
-	switch g.pick(52) {
+	// the first 22 kinds (the core of the subset) are drawn twice as often as the later additions
+	kind := g.pick(52 + 22)
+	if kind >= 52 {
+		kind -= 52
+	}
+	switch kind {
 	case 0, 1: // x := e
 		t := g.randValueType()
 		e := g.expr(s, t, 2)
